@@ -259,6 +259,7 @@ func c05Scale(w *mon.W) {
 		s.Args = gen.ArgsMap(r)
 		var paths []gen.Path
 		gen.Paths(s.Args, nil, &paths, 3)
+		paths = append(paths, gen.RelPaths(r, s.Args, paths, 6)...)
 		npol := 0
 		for k := range s.Links {
 			c := counts[r.IntN(len(counts))]
